@@ -10,15 +10,18 @@ import NucsProofs.Basic
   `MP.Interleaving k W fin msgs`: `msgs` is a shuffle of the `k` streams (every message comes from a
   worker `< k`, and the sub-sequence of worker `i` is its stream, in order).
 
-  Headline results
-    * `C11_solve`              running = [], not raised, `yielded` is a permutation of all the solutions
+  Headline results (all for EVERY interleaving)
+    * `C11_solve`, `C11_solve_count`, `C11_solve_mem`   running = [], not raised, `yielded` is a
+                               permutation of all the workers' solutions
     * `C11_solve_order`        in fact `yielded` is the arrival order, reversed
     * `C11_not_done_before_end`, `C11_done_at_end`   the parent reads ALL messages, and stops then
-    * `C11_stats`, `C11_aggregate`                   the final statistics are the workers' last ones
-    * `C11_optimize_none_iff`, `C11_optimize_best`   `optimize` returns an optimal received solution
-    * `C11_benign_timeouts`    time-outs with all running workers alive change nothing
-    * `C18_safety`, `C18_halts_within_two_polls`, `C18_run_halts`, `C18_done_absorbing`,
-      `C18_message_clears_suspicion`
+    * `C11_stats`, `C11_stats_get`, `C11_aggregate`  the final statistics are the workers' last ones
+    * `C11_optimize_none_iff`, `C11_optimize_best`, `C11_optimize_value`, `C11_optimize_fold`
+                               `optimize` returns an optimal received solution
+    * `C11_benign_timeouts`    time-outs with all workers alive change nothing
+    * `C18_safety`, `C18_safety_all_alive`, `C18_halts_within_two_polls`, `C18_run_halts`,
+      `C18_done_absorbing`, `C18_message_clears_suspicion`
+    * `MP.sequential_interleaving`  the hypothesis `Interleaving` is satisfiable for every `k W fin`
 -/
 namespace Nucs
 
